@@ -751,14 +751,14 @@ static void run_case(int k, const std::string & head, const std::string & body)
          }
          else if ((c == "fr")&&(a.size() == 7))
          {
-            if ((a[5] != "")&&(a[6] != ""))
+            if (a[5] != "")     // an empty value buffer is outside the modelled domain; an empty assumed-default is allowed (direct API only)
             {
                std::shared_ptr<OF> o(new OF); o->kind = 'R'; o->name = unhex(a[1]); o->idx = u32(a[2]); o->op = u32(a[3]) & 255; o->tc = u32(a[4]);
                o->hasVal = (a[5] != "-"); if (o->hasVal) o->val = unhex(a[5]);
                o->hasDef = (a[6] != "-"); if (o->hasDef) o->def = unhex(a[6]);
                ConstByteBufferRef vb, db;
                if (o->hasVal) vb = GetByteBufferFromPool((uint32) o->val.size(), &o->val[0]);
-               if (o->hasDef) db = GetByteBufferFromPool((uint32) o->def.size(), &o->def[0]);
+               if (o->hasDef) db = GetByteBufferFromPool((uint32) o->def.size(), dataptr(o->def));
                Entry e; e.f = QueryFilterRef(new RawDataQueryFilter(mkstr(o->name), (uint8) o->op, vb, o->tc, o->idx, db)); e.o = o; stack.push_back(e); ok = true;
             }
          }
